@@ -158,17 +158,249 @@ class G(object):
         if d <= 0:
             return self.atom(e)
         x = r.random()
-        if x < 0.35:
+        if x < 0.28:
             return self.atom(e)
-        if x < 0.48:
+        if x < 0.38:
             return 'use(%s, %s)' % (self.ex(e, d - 1), self.ex(e, d - 1))
-        if x < 0.68:
+        if x < 0.55:
             return self.lam(e, d - 1)
-        if x < 0.88:
+        if x < 0.72:
             return self.comp(e, d - 1)
-        if e.walrus_ok:
-            return self.walrus(e, d - 1)
-        return self.atom(e)
+        if x < 0.82:
+            if e.walrus_ok:
+                return self.walrus(e, d - 1)
+            return self.atom(e)
+        return self.composite(e, d)
+
+    def composite(self, e, d):
+        """operators, displays, subscripts, attribute bases, call arguments, f-strings hosting sub-expressions"""
+        r = self.r
+        sub = lambda: self.ex(e, d - 1)
+        k = r.choice(['list', 'tuple', 'dict', 'set', 'binop', 'ifexp', 'boolop', 'not', 'cmp', 'neg', 'index',
+                      'slice', 'attr', 'kwarg', 'starargs', 'fstr', 'fstr2', 'star-display', 'dictsplat'])
+        if k == 'list':
+            return '[%s, %s]' % (sub(), sub())
+        if k == 'tuple':
+            return '(%s, %s)' % (sub(), sub())
+        if k == 'dict':
+            return '{%s: %s}' % (sub(), sub())
+        if k == 'set':
+            return '{%s, 0}' % sub()
+        if k == 'binop':
+            return '(%s %s %s)' % (sub(), r.choice(['+', '-', '*', '|', '@', '//', '<<']), sub())
+        if k == 'ifexp':
+            return '(%s if %s else %s)' % (sub(), sub(), sub())
+        if k == 'boolop':
+            return '(%s %s %s)' % (sub(), r.choice(['and', 'or']), sub())
+        if k == 'not':
+            return '(not %s)' % sub()
+        if k == 'cmp':
+            return '(%s %s %s)' % (sub(), r.choice(['<', '==', '!=', 'in', 'not in']), sub())
+        if k == 'neg':
+            return '(-%s)' % sub()
+        if k == 'index':
+            return 'it()[%s]' % sub()
+        if k == 'slice':
+            return 'it()[%s:%s]' % (sub(), sub())
+        if k == 'attr':
+            return r.choice(['use(%s).a', '(%s).a']) % sub()
+        if k == 'kwarg':
+            return 'use(0, k=%s)' % sub()
+        if k == 'starargs':
+            return 'use(*%s, **%s)' % (sub(), sub())
+        if k == 'fstr':
+            return "f'a{ %s }b'" % sub()
+        if k == 'fstr2':
+            return "f'{ %s!r:>{ %s }}'" % (sub(), sub())
+        if k == 'star-display':
+            return '[*%s, 0]' % sub()
+        return '{**%s}' % sub()
+
+    def bx(self, e, d=2):
+        """an expression that most of the time *is* a binding construct (lambda, comprehension, walrus)"""
+        x = self.r.random()
+        if x < 0.3:
+            return self.lam(e, 1)
+        if x < 0.6:
+            return self.comp(e, 1)
+        if x < 0.75 and e.walrus_ok:
+            return self.walrus(e, 1)
+        return self.ex(e, d)
+
+    def host_stmt(self, ctx, ind):
+        """statements whose expression positions host binding constructs: augmented assignments (name /
+        attribute / subscript targets), subscript and attribute stores, del, raise, assert, with items, handler
+        types, match subject and guard, annotations, f-strings, class keywords, decorators, call arguments,
+        defaults, return / yield / await operands, loop and branch conditions"""
+        r = self.r
+        e = E(ctx)
+        ea = E(ctx, walrus_ok=False)          # annotations
+        b = lambda: self.bx(e)
+        kinds = ['aug-name', 'aug-name', 'aug-attr', 'aug-sub', 'aug-sub2', 'aug-attr2', 'store-sub', 'store-attr',
+                 'del', 'raise', 'assert2', 'withitem', 'handler', 'match', 'annonly', 'annassign', 'fstr', 'classkw',
+                 'deco', 'callargs', 'slice', 'signature', 'lamsig', 'foriter', 'whilecond', 'ifelif', 'starval',
+                 'lambody', 'exprstmt']
+        if ctx.kind == 'function':
+            kinds += ['return', 'return']
+            if ctx.is_async:
+                kinds += ['await', 'await']
+            else:
+                kinds += ['yield', 'yield-assign', 'yieldfrom']
+        if ind >= 5:
+            kinds = [k for k in kinds if k not in ('withitem', 'handler', 'match', 'classkw', 'deco', 'signature',
+                                                   'foriter', 'whilecond', 'ifelif')]
+        k = r.choice(kinds)
+        op = r.choice(['+=', '-=', '|=', '*=', '//=', '@=', '>>=', '&=', '**=', '^=', '%='])
+        if k == 'aug-name':
+            self.emit(ind, '%s %s %s' % (self.ident(tuple(ctx.gl) if ctx.kind == 'module' else ()), op, b()))
+        elif k == 'aug-attr':
+            self.emit(ind, '%s %s %s' % (r.choice(['it().a', 'self.a', 'cm.b']), op, b()))
+        elif k == 'aug-attr2':
+            self.emit(ind, 'use(%s).a %s %s' % (b(), op, b()))
+        elif k == 'aug-sub':
+            self.emit(ind, 'it()[0] %s %s' % (op, b()))
+        elif k == 'aug-sub2':
+            self.emit(ind, 'it()[%s] %s %s' % (b(), op, b()))
+        elif k == 'store-sub':
+            self.emit(ind, 'it()[%s] = %s' % (b(), b()))
+        elif k == 'store-attr':
+            self.emit(ind, 'use(%s).a = %s' % (b(), b()))
+        elif k == 'del':
+            self.emit(ind, r.choice(['del it()[%s]', 'del use(%s).a', 'del (it()[%s]), it().b']) % b())
+        elif k == 'raise':
+            if r.random() < 0.5:
+                self.emit(ind, 'raise Err(%s)' % b())
+            else:
+                self.emit(ind, 'raise use(%s) from %s' % (b(), b()))
+        elif k == 'assert2':
+            self.emit(ind, 'assert %s, %s' % (b(), b()))
+        elif k == 'withitem':
+            pre = 'async ' if ctx.kind == 'function' and ctx.is_async and r.random() < 0.4 else ''
+            x = r.random()
+            if x < 0.4:
+                t = self.tid(ctx, 'with')
+                self.emit(ind, '%swith use(%s) as %s:' % (pre, b(), t))
+            elif x < 0.7:
+                self.emit(ind, '%swith cm(), use(%s):' % (pre, b()))
+            else:
+                self.emit(ind, '%swith use(%s) as it().a, cm() as it()[%s]:' % (pre, b(), b()))
+            self.suite(ctx, ind + 1, 1)
+        elif k == 'handler':
+            self.emit(ind, 'try:')
+            self.suite(ctx, ind + 1, 1)
+            if r.random() < 0.5:
+                self.emit(ind, 'except use(%s) as %s:' % (b(), self.tid(ctx, 'except')))
+            else:
+                self.emit(ind, 'except (Err, use(%s)):' % b())
+            self.suite(ctx, ind + 1, 1)
+        elif k == 'match':
+            self.emit(ind, 'match %s:' % b())
+            self.emit(ind + 1, 'case 1 if %s:' % b())
+            self.suite(ctx, ind + 2, 1)
+            self.emit(ind + 1, 'case _:')
+            self.emit(ind + 2, 'pass')
+        elif k == 'annonly':
+            self.emit(ind, '%s: %s' % (self.ident(tuple(ctx.gl) + tuple(ctx.nl)), self.bx(ea)))
+        elif k == 'annassign':
+            self.emit(ind, '%s: %s = %s' % (self.tid(ctx, 'annassign'), self.bx(ea), b()))
+        elif k == 'fstr':
+            self.emit(ind, r.choice(["use(f'{ %s }')" % b(), "f'x{ %s!r}y{ %s :>{ %s }}'" % (b(), b(), b())]))
+        elif k == 'classkw':
+            name = self.tid(ctx, 'class')
+            self.emit(ind, r.choice(['class %s(Err, metaclass=%s):', 'class %s(k=%s):', 'class %s(use(%s)):',
+                                     'class %s(*%s):']) % (name, b()))
+            self.body(Ctx('class', ctx), ind + 1, 1)
+        elif k == 'deco':
+            self.emit(ind, '@use(%s)' % b())
+            if r.random() < 0.3:
+                self.emit(ind, '@%s' % self.lam(e, 1))
+            if r.random() < 0.5:
+                self.emit(ind, 'def %s():' % self.tid(ctx, 'def'))
+            else:
+                self.emit(ind, 'class %s:' % self.tid(ctx, 'class'))
+            self.emit(ind + 1, 'pass')
+        elif k == 'callargs':
+            self.emit(ind, 'use(%s, *%s, k=%s, **%s)' % (b(), b(), b(), b()))
+        elif k == 'slice':
+            self.emit(ind, 'it()[%s:%s:%s]' % (b(), b(), b()))
+        elif k == 'signature':
+            self.signature(ctx, ind, e, ea)
+        elif k == 'lamsig':
+            self.emit(ind, 'use(lambda %s=%s, /, %s=%s, *, %s=%s: %s)' % (
+                self.fresh_any(), b(), self.fresh_any(), b(), self.fresh_any(), b(), '0'))
+        elif k == 'foriter':
+            pre = 'async ' if ctx.kind == 'function' and ctx.is_async and r.random() < 0.4 else ''
+            self.emit(ind, '%sfor %s in %s:' % (pre, r.choice([self.tid(ctx, 'for'), 'it().a', 'it()[%s]' % b()]), b()))
+            self.suite(ctx, ind + 1, 1)
+        elif k == 'whilecond':
+            self.emit(ind, 'while %s:' % b())
+            self.suite(ctx, ind + 1, 1)
+            self.emit(ind, 'else:')
+            self.suite(ctx, ind + 1, 1)
+        elif k == 'ifelif':
+            self.emit(ind, 'if %s:' % b())
+            self.suite(ctx, ind + 1, 1)
+            self.emit(ind, 'elif %s:' % b())
+            self.suite(ctx, ind + 1, 1)
+        elif k == 'starval':
+            self.emit(ind, '%s = *%s, 0' % (self.tid(ctx, 'assign'), b()))
+        elif k == 'lambody':
+            self.emit(ind, '%s = lambda: %s' % (self.tid(ctx, 'assign'), b()))
+        elif k == 'exprstmt':
+            self.emit(ind, b())
+        elif k == 'return':
+            self.emit(ind, 'return %s' % b())
+        elif k == 'await':
+            self.emit(ind, r.choice(['await %s', 'use(await use(%s))']) % b())
+        elif k == 'yield':
+            self.emit(ind, 'yield %s' % b())
+        elif k == 'yield-assign':
+            self.emit(ind, '%s = yield %s' % (self.tid(ctx, 'assign'), b()))
+        else:
+            self.emit(ind, 'yield from %s' % b())
+
+    def fresh_any(self):
+        self.counter += 1
+        id = 'n%d' % self.counter
+        self.decided[id] = self.r.random() < self.p_read
+        return id
+
+    def signature(self, ctx, ind, e, ea):
+        """a def whose every annotation / default / return annotation may host a binding construct"""
+        r = self.r
+        name = self.tid(ctx, 'def')
+        inner = Ctx('function', ctx, r.random() < 0.2)
+
+        def prm(star='', default=True):
+            id = self.fresh_any()
+            inner.params.add(id)
+            s_ = star + id
+            has_ann = r.random() < 0.5
+            if has_ann:
+                s_ += ': ' + self.bx(ea)
+            if default and r.random() < 0.6:
+                s_ += (' = ' if has_ann else '=') + self.bx(e)
+            elif default:
+                s_ += (' = ' if has_ann else '=') + '0'
+            return s_
+        parts = []
+        if r.random() < 0.4:
+            parts += [prm(), '/']
+        parts.append(prm())
+        if r.random() < 0.5:
+            parts.append(prm('*', default=False))
+        else:
+            parts.append('*')
+        parts.append(prm())
+        if r.random() < 0.4:
+            parts.append(prm('**', default=False))
+        ret = ' -> %s' % self.bx(ea) if r.random() < 0.5 else ''
+        self.emit(ind, '%sdef %s(%s)%s:' % ('async ' if inner.is_async else '', name, ', '.join(parts), ret))
+        inner.bound.update(inner.params)
+        if ctx.depth >= 3:
+            self.emit(ind + 1, 'pass')
+        else:
+            self.body(inner, ind + 1, r.choice([1, 2]))
 
     def walrus(self, e, d):
         ctx = e.ctx
@@ -197,6 +429,8 @@ class G(object):
         r = self.r
         ctx = e.ctx
         ngen = 1 if r.random() < 0.75 else 2
+        if r.random() < 0.3:
+            d = max(d, 2)                 # now and then host further binding constructs inside the comprehension
         targets = set(e.comp_targets)
         parts = []
         wok = e.walrus_ok and ctx.kind != 'class'
@@ -229,7 +463,7 @@ class G(object):
             return '{%s %s}' % (elt, tail)
         if k == 'gen':
             return 'use(%s %s)' % (elt, tail) if r.random() < 0.5 else '(%s %s)' % (elt, tail)
-        return '{%s: %s %s}' % (self.ex(ee, 0), elt, tail)
+        return '{%s: %s %s}' % (self.ex(ee, 1 if r.random() < 0.3 else 0), elt, tail)
 
     def params(self, inner, oe, method, is_lambda, d=1):
         """parameter list text; declares the names in inner.params"""
@@ -317,6 +551,8 @@ class G(object):
             return self.locals_shadow(ctx, ind)
         if ctx.kind in ('class', 'function') and ctx.depth >= 1 and r.random() < 0.03:
             return self.locals_stmt(ind)
+        if r.random() < 0.15:
+            return self.host_stmt(ctx, ind)
         if x < 0.66:
             kinds = list(STMT_KINDS)
             if deep:
